@@ -168,7 +168,7 @@ func (w *World) verifyFunction(c *Contract) (res *FuncResult) {
 	// per-label solver budgets apply to every obligation that stems from a clause with that label
 	for lab, secs := range c.Raw.Slow {
 		for _, o := range vc.obls {
-			if strings.HasSuffix(o.Name, "."+lab) || strings.Contains(o.Name, "."+lab+".") {
+			if strings.HasSuffix(o.Name, "."+lab) || strings.Contains(o.Name, "."+lab+".") || strings.HasSuffix(o.Name, "#"+lab) || strings.Contains(o.Name, "#"+lab+".") {
 				if o.TimeoutMs < secs*1000 {
 					o.TimeoutMs = secs * 1000
 				}
